@@ -220,6 +220,7 @@ def shards(tier, seed):
     out = [("files", size, ci) for size in SIZES[tier] for ci in range(len(CHUNKS))]
     out += [("history", k) for k in range(len(HIST_SIZES))]
     out += [("pairs", iface) for iface in ("wsgi", "asgi")]
+    out.append(("defaultchunk",))
     return out
 
 
@@ -312,6 +313,26 @@ def run_shard(desc, tier):
         return r
     if desc[0] == "pairs":
         run_pairs(r, desc[1])
+        return r
+    if desc[0] == "defaultchunk":
+        # file sizes and range ends around the default chunk size (4096 * 64) with the default chunk size
+        D = 4096 * 64
+        t = Tree()
+        try:
+            for size in (D - 1, D, D + 1, 2 * D):
+                path = t.file(size)
+                data = content(size)
+                for header, specs in ((None, None), (f"bytes=0-{D - 1}", [("fl", 0, D - 1)]), (f"bytes=1-{D}", [("fl", 1, D)]), (f"bytes=0-0,{D - 1}-", [("fl", 0, 0), ("f", D - 1)]), ("bytes=-1", [("s", 1)])):
+                    for iface in ("wsgi", "asgi", "zerocopy"):
+                        for method in ("GET", "HEAD"):
+                            res = call(iface, path, None, method, [("Range", header)] if header else [])
+                            r.count("evaluations")
+                            r.count("distinct_nontrivial")
+                            for kind, text in judge(res, None, size, specs, True, method, data):
+                                r.violation(f"{kind}:{iface}:{method}", {"size": size, "chunk": None, "iface": iface, "method": method, "range": header, "if_range": None}, f"{iface} {method} size={size} default chunk Range={header!r}: {text}")
+            r.sample({"sizes": [D - 1, D, D + 1, 2 * D], "chunk": "default (262144)"})
+        finally:
+            t.close()
         return r
     _, size, ci = desc
     chunk = CHUNKS[ci]
